@@ -26,7 +26,8 @@ REGISTRATION = {
             "implementations (Go vs Lean) are compared exactly on thousands of random tables per run (L1). The holder "
             "ordering is taken from C01's theorems for the scheduler variant extracted from the tree. An in-process server is "
             "then hammered under `go test -race` (random mix incl. failing loads and clients that go away, plus a directed "
-            "ps-during-failed-load search); every race report must fall on a statically flagged pair, and HTTP results are "
+            "ps-during-failed-load search, and a directed store-race search: a reader of a model stalled on a named pipe "
+            "at every blob of its manifest while delete / re-create / copy-over runs on the same name); every race report must fall on a statically flagged pair, and HTTP results are "
             "monitored for recovered panics, process crashes, /api/ps 5xx, /api/ps that never returns and torn /api/ps views.",
     "design_ref": "DESIGN.md §5 C15",
     "note": COMMON_NOTE + "Partial by nature: the theorem is about lock-granularity traces and takes the non-lock "
@@ -319,6 +320,7 @@ def run(ctx):
         outdir = os.path.join(ctx.tmp, f"race-{i}")
         os.makedirs(outdir)
         env = {"VERIF_SECS": secs, "VERIF_ROUNDS": rounds, "VERIF_WORKERS": workers, "VERIF_TRIALS": trials,
+               "VERIF_STORE_SWEEPS": ctx.scale(1, 3) if i == 0 else 0,
                "VERIF_SEED": ctx.seed * 1000 + i,
                "GORACE": f"log_path={outdir}/race halt_on_error=0 history_size=3"}
         if procs:
